@@ -55,6 +55,20 @@ def check_one(arg):
     rep = dict(std=std, source=src, keep_comments=keep, expected_line=line, expected_text=text,
                statement=st[k].line(""))
     feat = st[k].role + ":" + st[k].kind
+    if with_comments:
+        # the same source read from a file (page breaks and other control characters in comments included)
+        import os, shutil, tempfile
+        d = tempfile.mkdtemp(prefix="verif_c07_")
+        try:
+            pth = os.path.join(d, "prog.f90")
+            with open(pth, "w", newline="") as fh:
+                fh.write(src)
+            of = fp.parse(src, std=std, rd=fp.FortranFileReader(pth, ignore_comments=not keep))
+        finally:
+            shutil.rmtree(d, ignore_errors=True)
+        if (of.kind, of.line) != (o.kind, o.line):
+            return [("file_reader_differs", "string reader: %s line %s, file reader: %s line %s [%s]"
+                     % (o.kind, o.line, of.kind, of.line, feat), dict(rep, reader="file"))]
     if o.kind != "syntax":
         return [("not_a_syntax_error:" + o.kind, "outcome %s instead of FortranSyntaxError [%s]" % (o.kind, feat), rep)]
     fails = []
